@@ -122,3 +122,17 @@ Example efi_example :
   efi_memory_areas m {| t_off := 0; t_meta := Some 96 |} =
     Val {| ei_tag := {| t_off := 0; t_meta := Some 96 |}; ei_i := 0; ei_entries := 2 |}.
 Proof. vm_compute. reflexivity. Qed.
+
+(* ---- the provided Iterator methods: nth(k) (k+1 calls of next, stopping at the first None) is the k-th item of
+   the run to exhaustion; count() is its length ---- *)
+Lemma efi_nth_collect fuel p m : forall it items k,
+  efi_collect fuel p m it = (items, Val tt) -> rmap fst (efi_nth p m it k) = Val (nth_error items k).
+Proof.
+  induction fuel as [|f IH]; intros it items k H; cbn [efi_collect] in H; [discriminate|].
+  destruct k as [|k']; cbn [efi_nth];
+    destruct (efi_next p m it) as [[[off|] it']| | |]; try discriminate.
+  - destruct (efi_collect f p m it') as [l e]. injection H as <- ->. reflexivity.
+  - injection H as <-. reflexivity.
+  - destruct (efi_collect f p m it') as [l e] eqn:E. injection H as <- ->. cbn [nth_error]. apply (IH it' l k' E).
+  - injection H as <-. reflexivity.
+Qed.
